@@ -52,11 +52,24 @@ SERIAL = T.Obj(
     g_D=T.List(T.Bytes), g_nread=T.Range(0, None), g_read=T.Const(None))
 
 
+def capacity():
+    """payload bytes of the terminal's output data field (a Pascal string:
+    one length byte, the rest payload), from the real declaration"""
+    import struct
+    from ebpfcat.terminals import EL6002
+    return struct.calcsize(EL6002.Channel.__dict__["out_string"].size) - 1
+
+
+CAP = capacity()
+
+
 def inv(s):
-    """outputs mirror the remembered toggles; an outstanding chunk is shown"""
+    """outputs mirror the remembered toggles; an outstanding chunk is shown and
+    fits the terminal's data field"""
     return (s.transmit_request == s.last_transmit_request
             and s.receive_accept == s.last_receive_accept
-            and (s.current_transmit is None or s.out_string == s.current_transmit))
+            and (s.current_transmit is None
+                 or (s.out_string == s.current_transmit and len(s.current_transmit) <= CAP)))
 
 
 def chunk_ok(b):
@@ -101,9 +114,32 @@ def _m_read(ex, args, kw):
     return c
 
 
+def prototype_fields():
+    """what the real Serial.__init__ computes from the real EL6002 channel and
+    the contract's schema does not name (plain values only): the object under
+    contract is a real, initialised Serial whose schema fields are symbolic"""
+    from ebpfcat.terminals import EL6002
+    t = object.__new__(EL6002)
+    t.position_offset = {}
+    proto = Serial(t.channel1)
+    out = {}
+    for k, v in vars(proto).items():
+        if k in ("in_read", "in_write", "out_read", "out_write"):
+            try:
+                os.close(v)
+            except OSError:
+                pass
+            continue
+        if k not in SERIAL.fields and isinstance(v, (int, str, bytes, bool, float, type(None))):
+            out[k] = v
+    return out
+
+
 def setup(ex, inputs):
     s = inputs.vars["self"]
     f = s.fields
+    for k, v in prototype_fields().items():
+        f.setdefault(k, v)
     from vc.pyvc.values import lift_bool
     acked = lift_bool(f["last_transmit_accept"]) != lift_bool(f["transmit_accept"])
     free = z3.BoolVal(True) if f["current_transmit"] is None else acked
@@ -137,6 +173,8 @@ update = Contract(
             "self.g_nread == old.self.g_nread + 1 and self.current_transmit == self.g_read and "
             "self.out_string == self.g_read and "
             "self.transmit_request == (not old.self.transmit_request))",
+        "transmit[every byte taken from the application fits the terminal's data field]":
+            "self.g_read is None or (len(self.g_read) <= CAP and len(self.out_string) <= CAP)",
         "transmit[no toggle without a new chunk]":
             "implies(self.g_read is None, self.transmit_request == old.self.transmit_request and "
             "self.g_nread == old.self.g_nread)",
